@@ -496,6 +496,28 @@ func (x *Exec) checkLoopInv(fr *Frame, st *State, li *loopInfo, kind string) {
 	}
 }
 
+// checkLoopStep: `loop k step e` clauses say what every complete iteration has done (typically over
+// the event trace: called(...)); they are checked when a back edge is taken.
+func (x *Exec) checkLoopStep(fr *Frame, st *State, li *loopInfo) {
+	cls := x.loopClauses(fr, li, "step")
+	if len(cls) == 0 {
+		return
+	}
+	env := x.loopEnv(fr, st, li)
+	for _, cl := range cls {
+		t, err := env.EvalBool(cl.Node)
+		if err != nil {
+			x.abort("loop %d step: %v", li.ordinal, err)
+		}
+		x.clauseUsed[cl]++
+		props := cl.Props
+		if len(props) == 0 {
+			props = []string{"C07"}
+		}
+		st.check(x.newObl(fr.fn, "loop-step", fmt.Sprintf("loop %d: %s", li.ordinal, cl.Label()), props, cl.Source), t)
+	}
+}
+
 func (x *Exec) assumeLoopInv(fr *Frame, st *State, li *loopInfo) {
 	env := x.loopEnv(fr, st, li)
 	for _, cl := range x.loopClauses(fr, li, "invariant") {
